@@ -5,6 +5,7 @@ import (
 	"bytes"
 	"context"
 	"fmt"
+	"strings"
 	"testing"
 
 	"github.com/gebn/bmc/pkg/dcmi"
@@ -37,6 +38,13 @@ func exact(b []byte) []byte {
 	o := make([]byte, len(b))
 	copy(o, b)
 	return o[:len(o):len(o)]
+}
+
+func baseName(n string) string {
+	if i := strings.Index(n, "/"); i > 0 {
+		return n[:i]
+	}
+	return n
 }
 
 // TestDecoders: reference encoding of generated values decodes to those values;
@@ -231,13 +239,23 @@ func TestChecksumSweep(t *testing.T) {
 	ev.Label("sweep:checksums")
 }
 
+// viewOfPacket lists commands whose response exposes a variable-length byte
+// slice that is a view of the decoded packet by design: the cipher-suite record
+// chunk is documented as such ("references data in the decoded packet"), and Get
+// SDR's record data is the gopacket layer payload. Every other value (numbers,
+// flags, addresses, GUIDs, ID lists) must be the caller's own.
+var viewOfPacket = map[string]bool{"Get SDR": true, "Get Channel Cipher Suites": true}
+
 // TestThroughAPI reads generated values through SendCommand against the
 // simulated BMC, and checks that a corrupted reply yields an error from the call.
 func TestThroughAPI(t *testing.T) {
 	cat := hx.Catalogue()
 	ev.Check(t, "TestThroughAPI", ev.PickN(3000, 150000), func(t *rapid.T) {
 		creds := hx.Creds{User: "admin", Password: []byte("secret"), Priv: 4, Suite: rapid.SampledFrom(hx.Suites9()).Draw(t, "suite"), Seed: rapid.Uint64().Draw(t, "seed")}
-		w := hx.NewWorldFor(creds, true)
+		// half of the cases deliver datagrams the way the real transport does: in
+		// one receive buffer that the next datagram overwrites
+		reusedBuffer := rapid.Bool().Draw(t, "reusedReceiveBuffer")
+		w := hx.NewWorldFor(creds, !reusedBuffer)
 		e := rapid.SampledFrom(cat).Draw(t, "command")
 		inSession := e.Session || rapid.Bool().Draw(t, "inSession")
 		var conn interface {
@@ -295,6 +313,19 @@ func TestThroughAPI(t *testing.T) {
 		if code == 0 {
 			if err := call.Check(); err != nil {
 				t.Fatalf("%s: value read through the API differs: %v", call.Name, err)
+			}
+			// the value the caller holds must still be the BMC's after the connection
+			// has received its next datagram (the receive buffer is reused)
+			if reusedBuffer && !viewOfPacket[call.Name] && call.Name != "Close Session" {
+				for _, next := range []ipmi.Command{&ipmi.GetSystemGUIDCmd{}, &ipmi.GetChannelAuthenticationCapabilitiesCmd{Req: ipmi.GetChannelAuthenticationCapabilitiesReq{Channel: ipmi.ChannelPresentInterface, MaxPrivilegeLevel: ipmi.PrivilegeLevelAdministrator}}} {
+					ctx2, cancel2 := w.Ctx(1)
+					conn.SendCommand(ctx2, next)
+					cancel2()
+				}
+				if err := call.Check(); err != nil {
+					t.Fatalf("%s: value read through the API changed after the next command on the connection: %v", call.Name, err)
+				}
+				ev.Label("api:value-survives-next-command")
 			}
 		}
 		ev.Label(fmt.Sprintf("api:%s:session=%v", call.Name, inSession))
@@ -365,6 +396,6 @@ func TestSensorInfoThroughAPI(t *testing.T) {
 func TestCoverage(t *testing.T) {
 	ev.RequireLabels(t, 1, "reject:checksum", "reject:covered-byte", "reject:length-field", "decode:GetSessionInfoRsp/3", "decode:GetSessionInfoRsp/6", "decode:GetSessionInfoRsp/18",
 		"decode:FullSensorRecord/enc0", "decode:FullSensorRecord/enc1", "decode:FullSensorRecord/enc2", "decode:FullSensorRecord/enc3", "decode:RAKPMessage2/status0=true",
-		"decode:DCMICaps/param2/v1.0", "decode:DCMICaps/param2/v1.5", "api:sensor-info:shorter-page-after-longer", "api-reject:mode0", "api-reject:mode1", "api-reject:mode2", "sweep:checksums")
+		"decode:DCMICaps/param2/v1.0", "decode:DCMICaps/param2/v1.5", "api:sensor-info:shorter-page-after-longer", "api:value-survives-next-command", "api-reject:mode0", "api-reject:mode1", "api-reject:mode2", "sweep:checksums")
 	_ = context.Background
 }
